@@ -496,6 +496,79 @@ pub fn large_then_followers(tier: Tier) -> (u64, Vec<(String, String)>, Option<S
     (n, out, None)
 }
 
+/// C19 over TCP, long runs: `n` commands of one kind followed by a noop, in one write - once loud,
+/// once as their quiet twins.  The quiet run is silent up to the noop's answer, the loud run answers
+/// every command, and both leave the same items in the store.
+pub fn quiet_vs_loud_long(tier: Tier, threads: usize) -> (u64, Vec<(String, String)>, Option<String>) {
+    let ns: Vec<usize> = if tier == Tier::Quick { vec![19, 20, 21, 25, 130, 300] } else { vec![19, 20, 21, 25, 64, 65, 130, 300, 1100, 5000] };
+    let kinds = ["set", "get-miss", "incr", "append"];
+    let mut cases: Vec<(usize, &str)> = vec![];
+    for n in &ns {
+        for k in kinds {
+            cases.push((*n, k));
+        }
+    }
+    let run = |n: usize, kind: &str, quiet: bool| -> Result<(Vec<wire::Resp>, u32, Content, bool), String> {
+        let w = net::NetWorld::new(NetCfg::default())?;
+        let mut c = w.connect()?;
+        let _ = c.step(&w, &Req::store(op::SET, b"ctr", b"0", 1, 0, 0).opaque(1).bytes());
+        let _ = c.step(&w, &Req::store(op::SET, b"txt", b"", 2, 0, 0).opaque(2).bytes());
+        c.got.clear();
+        let mut bytes = vec![];
+        for i in 0..n {
+            let r = match kind {
+                "set" => Req::store(if quiet { op::SETQ } else { op::SET }, format!("s{}", i % 7).as_bytes(), format!("{}", i).as_bytes(), 3, 0, 0),
+                "get-miss" => Req::get(if quiet { op::GETQ } else { op::GET }, b"nope"),
+                "incr" => Req::delta(if quiet { op::INCRQ } else { op::INCR }, b"ctr", 1, 0, 0, 0),
+                _ => Req::concat(if quiet { op::APPENDQ } else { op::APPEND }, b"txt", b"x", 0),
+            };
+            bytes.extend(r.opaque(0x100 + i as u32).bytes());
+        }
+        bytes.extend(Req::bare(op::NOOP).opaque(0x7777).bytes());
+        let lost = c.send(&w, &bytes).is_err();
+        for _ in 0..20_000 {
+            w.settle();
+            let before = c.got.len();
+            c.pump();
+            if c.got.len() == before {
+                break;
+            }
+        }
+        let (resps, residue) = wire::split_responses(&c.got);
+        Ok((resps, residue as u32, content(&w.dump()), lost || c.eof))
+    };
+    let res = par_map(&cases, threads, |_, (n, kind)| -> Result<Option<String>, String> {
+        let (lr, lres, lstore, llost) = run(*n, kind, false)?;
+        let (qr, qres, qstore, qlost) = run(*n, kind, true)?;
+        if llost || lres != 0 || lr.len() != n + 1 || lr.last().map(|r| (r.opcode, r.opaque)) != Some((op::NOOP, 0x7777)) {
+            return Ok(Some(format!("the loud run received {} responses ({} stray bytes{}), expected {}", lr.len(), lres, if llost { ", connection lost" } else { "" }, n + 1)));
+        }
+        if qlost || qres != 0 || qr.len() != 1 || qr[0].opcode != op::NOOP || qr[0].opaque != 0x7777 {
+            return Ok(Some(format!(
+                "the quiet run received {:?} ({} stray bytes{}), expected exactly the noop's answer",
+                qr.iter().take(3).map(|r| r.short()).collect::<Vec<_>>(),
+                qres,
+                if qlost { ", connection lost" } else { "" }
+            )));
+        }
+        if lstore != qstore {
+            let diff = lstore.iter().zip(qstore.iter()).find(|(a, b)| a != b).map(|(a, b)| format!("{}={} vs {}={}", wire::show(&a.0), wire::show(&a.1), wire::show(&b.0), wire::show(&b.1)));
+            return Ok(Some(format!("the stores differ after the loud and the quiet run ({} vs {} items; first difference {:?})", lstore.len(), qstore.len(), diff)));
+        }
+        Ok(None)
+    });
+    let mut out = vec![];
+    let mut err = None;
+    for ((n, kind), r) in cases.iter().zip(res.into_iter()) {
+        match r {
+            Err(e) => err = Some(e),
+            Ok(None) => {}
+            Ok(Some(what)) => out.push((format!("long-quiet-run|{}", kind), format!("{} x {} then noop in one write, loud and quiet: {}", n, kind, what))),
+        }
+    }
+    (cases.len() as u64 * 2, out, err)
+}
+
 type Content = Vec<(Vec<u8>, Vec<u8>, u32, u32)>;
 
 fn content(d: &[crate::sut::DumpItem]) -> Content {
